@@ -147,7 +147,7 @@ Proof.
   apply is_tomb_false in Et. destruct (s_state x); cbn in Eu; try discriminate; [reflexivity|exfalso; apply Et; reflexivity].
 Qed.
 
-(* buryStore (since fix b5aa87e it looks at the region tree itself, under the lock): whoever calls it, a store is only
+(* buryStore (since fix 2f015b8 it looks at the region tree itself, under the lock): whoever calls it, a store is only
    buried while the tree holds no peer on it *)
 Lemma do_bury_change s id f s' r :
   do_bury s id f = (s', r) ->
